@@ -33,8 +33,9 @@ ASSUMPTIONS = [
     'generic exponents are natural numbers p >= 1 in the model (non-integer p such as 1.5 / 2.5 only probed)',
     'weights are positive (the code does not check array weights); fractions inside the np.isclose band of 1 '
     'are snapped to 1 by the code and by the model',
-    'the Q instance of the p-th root (exact on perfect powers, else floor approximations to 2^-64) approximates '
-    'the real root used by the theorems',
+    'norms only: the Q instance of the p-th root (exact on perfect powers, else floor approximations to 2^-64) '
+    'approximates the real root used by the theorems (for inner products the Q instance is PROVED to be the '
+    'rational restriction of the R instance: C02/Transfer.v)',
     'custom inner/norm/dist callables are pass-through (delegation probed, nothing to prove)']
 TRUSTED = [
     'C02/Model.v: apply_on_boundary(only_once=False) modelled as entry-wise product with the outer product of '
@@ -43,6 +44,11 @@ TRUSTED = [
     'harness/c02.py case generators and the measured finding switches (quirks)']
 
 EXPOS = [1, 2, INF, 3, 4]
+
+
+def translate():
+    from translate import weighting as W
+    return {'Gen/Weighting.v': W.translate()}
 
 
 # ------------------------------------------------------------------ literals
@@ -111,8 +117,6 @@ def quirks():
             return (not exc) or isinstance(e, exc) or type(e).__name__ in [getattr(x, '__name__', x) for x in exc]
         return False
     q = {}
-    q['q_size0_blas'] = raises(lambda: odl.rn(0).zero().norm())
-    q['q_size0_inf'] = raises(lambda: odl.rn(0, exponent=INF).zero().norm(), ValueError)
     try:
         v = odl.uniform_discr(0, 2, 3, nodes_on_bdry=True).one().norm() ** 2
         q['q_unweighted_skips'] = abs(v - 3.0) < 1e-9
@@ -120,21 +124,14 @@ def quirks():
         q['q_unweighted_skips'] = True
     q['q_ps2_via_inner'] = raises(lambda: odl.ProductSpace(odl.rn(3, exponent=1), 2).one().norm(),
                                   NotImplementedError)
-    q['q_ps_empty_raises'] = raises(lambda: odl.ProductSpace(field=odl.RealNumbers()).zero().norm(), IndexError)
-    try:
-        q['q_size0d_zero'] = (odl.rn(()).one().norm() == 0.0)
-    except Exception:
-        q['q_size0d_zero'] = True
     _QUIRKS = q
     return q
 
 
 def quirks_term():
-    q = quirks()
-    return ('{| q_size0_blas := %s; q_size0_inf := %s; q_unweighted_skips := %s; q_ps2_via_inner := %s; '
-            'q_ps_empty_raises := %s; q_size0d_zero := %s |}'
-            % tuple(C.b(q[k]) for k in ('q_size0_blas', 'q_size0_inf', 'q_unweighted_skips', 'q_ps2_via_inner',
-                                        'q_ps_empty_raises', 'q_size0d_zero')))
+    """The model's two variant switches are read off the regenerated code (C02/GenTie.v: gen_quirks);
+    a probe checks that they agree with the measured behaviour."""
+    return 'gen_quirks'
 
 
 # ------------------------------------------------------------- space trees
@@ -227,9 +224,7 @@ class TensorLeaf(Node):
         self.space = odl.tensor_space(shape, **kw)
         self.src = 'odl.tensor_space(%r, %s)' % (tuple(shape), _kwsrc(kw))
         self.kw = kw
-        zd = (shape == ())
-        blas = dtype in ('float32', 'float64', 'complex64', 'complex128')   # _BLAS_DTYPES
-        self.coq = '(SLeaf (LTensor %s %s %s %s))' % (C.b(blas), C.b(zd), wq, expo(p))
+        self.coq = '(SLeaf (LTensor %s %s))' % (wq, expo(p))
         self.desc = {'kind': 'tensor', 'shape': list(shape), 'dtype': dtype, 'weighting': wkind,
                      'exponent': str(p)}
         self.rtol = 1e-5 if dtype == 'float32' else 1e-10
@@ -295,8 +290,9 @@ class DiscrLeaf(Node):
             kw['weighting'] = c
             wq = '(LConst %s)' % C.q(c)
         else:
-            w = np.array([float(rng.choice([1, 2, 3, 4, 0.5, 0.25])) for _ in range(n_tot)]).reshape(shape)
-            w = w.astype('float32' if dtype == 'float32' else 'float64')
+            menu = [1, 2, 3, 4] if dtype.startswith('int') else [1, 2, 3, 4, 0.5, 0.25]
+            w = np.array([float(rng.choice(menu)) for _ in range(n_tot)]).reshape(shape)
+            w = w.astype(dtype if dtype in ('float32', 'int64', 'int32') else 'float64')
             kw['weighting'] = w
             wq = '(LArr %s)' % qlist(w)
         if all(s[0] == 'flags' for s in specs):
@@ -325,7 +321,7 @@ class DiscrLeaf(Node):
             else:
                 axq.append('{| ax_n := %s; ax_a := %s; ax_b := %s; ax_g0 := %s; ax_g1 := %s |}'
                            % (nat(s[1]), C.q(s[2]), C.q(s[3]), C.q(s[4]), C.q(s[5])))
-        self.coq = '(SLeaf (LDiscr true %s %s %s))' % (C.lst(axq), wq, expo(p))
+        self.coq = '(SLeaf (LDiscr %s %s %s))' % (C.lst(axq), wq, expo(p))
         self.desc = {'kind': 'discr', 'axes': [list(map(str, s)) for s in specs], 'dtype': dtype,
                      'weighting': wkind, 'exponent': str(p)}
         self.rtol = 1e-5 if dtype == 'float32' else 1e-10
@@ -435,6 +431,8 @@ class ProdNode(Node):
 
 
 def rand_leaf(rng, p, tier, dtype='float64'):
+    if dtype == 'mixed':
+        dtype = rng.choice(['float32', 'float64'])
     if rng.random() < 0.5:
         for _ in range(20):
             lf = DiscrLeaf(rng, p, dtype=dtype)
@@ -445,11 +443,10 @@ def rand_leaf(rng, p, tier, dtype='float64'):
 
 def rand_tree(rng, depth, tier, p=None, coherent=None, dtype=None):
     """coherent: probability that children take exponent 2 under an exponent-2 parent (so that inner exists).
-    One dtype per tree: nested product spaces with mixed dtypes raise AttributeError in inner/norm
-    (finding pspace-nested-mixed-dtype-inner-raises, probed separately)."""
+    dtype: one dtype for the whole tree, or 'mixed' (float32 and float64 leaves in one tree; repaired by e2b9c08)."""
     p = p if p is not None else rng.choice(EXPOS)
     if dtype is None:
-        dtype = 'float32' if rng.random() < 0.1 else 'float64'
+        dtype = rng.choice(['float32', 'mixed', 'mixed'] + ['float64'] * 12)
     if depth == 0:
         return rand_leaf(rng, p, tier, dtype)
     pp = rng.choice([1, 2, 2, 2, INF, 3])
@@ -466,7 +463,10 @@ def rand_tree(rng, depth, tier, p=None, coherent=None, dtype=None):
         children = [ch] * k
     else:
         children = [rand_tree(rng, rng.randint(0, depth - 1), tier, child_p(), coh, dtype) for _ in range(k)]
-    return ProdNode(rng, pp, children, power=power)
+    # array-weighted product over a mixed-dtype product component still raises AttributeError in inner
+    # (finding pspace-array-nested-mixed-dtype-inner-raises, probed separately)
+    wk = rng.choice(['none', 'const']) if dtype == 'mixed' else None
+    return ProdNode(rng, pp, children, wkind=wk, power=power)
 
 
 # --------------------------------------------------------- correspondence
@@ -497,7 +497,7 @@ def _add_ops(cs, rng, node, qt, nel, ops=('inner', 'norm', 'dist'), kinds=None):
 
 
 def sp_cases(rng, tier):
-    cs = C.CaseSet('spaces', ['Base.Vec', 'C02.Model', 'C02.Corr'], 'check_sp', 'sp_case')
+    cs = C.CaseSet('spaces', ['Base.Vec', 'C02.Model', 'C02.GenTie', 'C02.Corr'], 'check_sp', 'sp_case')
     qt = quirks_term()
     thorough = tier != 'quick'
     # (1) every leaf option: tensor x weighting x exponent x shapes incl. 0 / () ; dtype
@@ -515,10 +515,7 @@ def sp_cases(rng, tier):
     # non-BLAS dtype (np.linalg.norm branch of _norm_default): integer spaces, incl. size 0
     for p, wk, shape in itertools.product(EXPOS, ['none', 'const', 'array'], [(0,), (3,), (2, 2)]):
         node = TensorLeaf(rng, p, shape=shape, wkind=wk, dtype='int64')
-        # int dtype x array weighting x finite p != 2: np.power(..., out=int array) raises
-        # (finding tensor-int-array-weighting-pnorm-raises, probed separately)
-        ops = ('inner',) if (wk == 'array' and p not in (2, INF)) else ('inner', 'norm', 'dist')
-        _add_ops(cs, rng, node, qt, 1, kinds=['int'], ops=ops)
+        _add_ops(cs, rng, node, qt, 1, kinds=['int'])
     # array weights are not checked for positivity: negative entries reach the
     # 'norm_squared < 0 -> 0' compensation of ArrayWeighting.norm (exponent 2) and max(w|x|) (inf)
     for p in (2, 2, 2, INF, INF):
@@ -541,6 +538,19 @@ def sp_cases(rng, tier):
                 node = DiscrLeaf(rng, p, wkind=wk, axes=[('flags', n, a, a + L, bl, br)])
                 if node.fragile():
                     continue
+                _add_ops(cs, rng, node, qt, 1, kinds=['int', 'one'])
+    # documented default weighting = cell volume for EVERY numeric dtype (integer and float32 spaces too)
+    for dt, p, wk in itertools.product(['int64', 'int32', 'float32'], EXPOS, ['default', 'const', 'array']):
+        for _ in range(1 if not thorough else 3):
+            node = None
+            for _try in range(30):
+                cand = DiscrLeaf(rng, p, wkind=wk, dtype=dt)
+                # integer dtype + boundary fractions: the scaled copy is truncated back to integers
+                # (finding discr-int-dtype-bdry-scaling-truncates, probed separately)
+                if not cand.fragile() and not (dt.startswith('int') and not cand.space.is_uniformly_weighted):
+                    node = cand
+                    break
+            if node is not None:
                 _add_ops(cs, rng, node, qt, 1, kinds=['int', 'one'])
     nrand = 60 if not thorough else 500
     made = 0
@@ -572,7 +582,7 @@ def sp_cases(rng, tier):
 
 
 def complex_cases(rng, tier):
-    cs = C.CaseSet('complex', ['Base.Vec', 'C02.Model', 'C02.Corr'], 'check_c', 'c_case')
+    cs = C.CaseSet('complex', ['Base.Vec', 'C02.Model', 'C02.GenTie', 'C02.Corr'], 'check_c', 'c_case')
     qt = quirks_term()
     n_each = 1 if tier == 'quick' else 4
     for p, wk, kind in itertools.product(EXPOS, ['none', 'const', 'array'], ['tensor', 'discr']):
@@ -599,6 +609,25 @@ def complex_cases(rng, tier):
                         % (qt, lf, qlist(xr), qlist(xi), qlist(yr), qlist(yi), opq, out, C.q(im)))
                 cs.add(term, {'space': node.desc, 'op': op, 'impl': out},
                        (C.digest(node.desc), op, C.digest([qlist(xr), qlist(xi), qlist(yr), qlist(yi)])))
+    # size regimes of _inner_default / _norm_default for complex data (closed form known to both sides)
+    for n in ([99, 100, 101, 50001] if tier == 'quick' else [99, 100, 101, 4999, 50000, 50001, 60000]):
+        for wk, p in ([('none', 2), ('const', 2), ('array', 2), ('array', 3)] if tier == 'quick'
+                      else itertools.product(['none', 'const', 'array'], [2, 1, 3, INF])):
+            node = TensorLeaf(rng, p, wkind=wk, dtype='complex128', big=n)
+            gs = [GenVec(rng, n) for _ in range(4)]
+            xr, xi, yr, yi = [g.array() for g in gs]
+            x = node.space.element(xr + 1j * xi)
+            y = node.space.element(yr + 1j * yi)
+            lf = node.coq[len('(SLeaf '):-1]
+            # inner only (root-free, linear time in Coq): <x,y> and <x,x>; norms of large complex arrays are
+            # covered by complex_size_probes (a per-entry rational square root of 50001 moduli is too slow)
+            for op, yy, gy in (('inner', y, (gs[2], gs[3])), ('inner-self', x, (gs[0], gs[1]))):
+                out, v = impl_call(lambda: x.inner(yy))
+                im = v.imag if isinstance(v, complex) else 0.0
+                term = ('{| c_q := %s; c_lf := %s; c_xr := %s; c_xi := %s; c_yr := %s; c_yi := %s; c_op := OInner; '
+                        'c_out := %s; c_out_im := %s |}'
+                        % (qt, lf, gs[0].coq(), gs[1].coq(), gy[0].coq(), gy[1].coq(), out, C.q(im)))
+                cs.add(term, {'space': node.desc, 'op': op, 'impl': out, 'size': n}, (C.digest(node.desc), op, n))
     return cs
 
 
@@ -606,7 +635,7 @@ def ctree_cases(rng, tier):
     """Complex spaces of any nesting: <x, y> itself (re and im) on non-real data, for default / constant /
     array product weightings at every level (the component inner products must be gathered as
     x1i.inner(x2i): the conjugate shows up in the imaginary part)."""
-    cs = C.CaseSet('ctree', ['Base.Vec', 'C02.Model', 'C02.Corr'], 'check_ct', 'ct_case')
+    cs = C.CaseSet('ctree', ['Base.Vec', 'C02.Model', 'C02.GenTie', 'C02.Corr'], 'check_ct', 'ct_case')
     qt = quirks_term()
     thorough = tier != 'quick'
     CD = 'complex128'
@@ -639,22 +668,28 @@ def ctree_cases(rng, tier):
         nd = rand_tree(rng, rng.choice([1, 2, 2, 3]), tier, p=2, coherent=0.92, dtype=CD)
         if isinstance(nd, ProdNode):
             nodes.append(nd)
+    for _ in range(20 if not thorough else 200):       # mixed exponents: norm / dist of complex product spaces
+        nd = rand_tree(rng, rng.choice([1, 2]), tier, dtype=CD)
+        if isinstance(nd, ProdNode):
+            nodes.append(nd)
     for node in nodes:
         for _ in range(1 if not thorough else 2):
             x, xr, xi = node.rand_c(rng)
             y, yr, yi = node.rand_c(rng)
-            out, v = impl_call(lambda: x.inner(y))
-            im = v.imag if isinstance(v, complex) else 0.0
-            term = ('{| t_q := %s; t_s := %s; t_xr := %s; t_xi := %s; t_yr := %s; t_yi := %s; t_out := %s; '
-                    't_out_im := %s |}' % (qt, node.coq, xr, xi, yr, yi, out, C.q(im)))
-            cs.add(term, {'space': node.desc, 'op': 'inner', 'impl': out, 'im': im},
-                   (C.digest(node.desc), C.digest([xr, xi, yr, yi])))
+            for op, opq, f in (('inner', 'OInner', lambda: x.inner(y)), ('norm', 'ONorm', lambda: x.norm()),
+                               ('dist', 'ODist', lambda: x.dist(y))):
+                out, v = impl_call(f)
+                im = v.imag if isinstance(v, complex) else 0.0
+                term = ('{| t_q := %s; t_s := %s; t_xr := %s; t_xi := %s; t_yr := %s; t_yi := %s; t_op := %s; '
+                        't_out := %s; t_out_im := %s |}' % (qt, node.coq, xr, xi, yr, yi, opq, out, C.q(im)))
+                cs.add(term, {'space': node.desc, 'op': op, 'impl': out, 'im': im, 'src': node.src},
+                       (C.digest(node.desc), op, C.digest([xr, xi, yr, yi])))
     return cs
 
 
 def partition_cases(rng, tier):
     import odl
-    cs = C.CaseSet('partition', ['Base.Vec', 'C02.Model', 'C02.Corr'], 'check_p', 'p_case')
+    cs = C.CaseSet('partition', ['Base.Vec', 'C02.Model', 'C02.GenTie', 'C02.Corr'], 'check_p', 'p_case')
     ns = list(range(1, 9)) + [16, 33] if tier == 'quick' else list(range(1, 21)) + [33, 64, 100, 257]
     for n in ns:
         for bl, br in itertools.product([False, True], repeat=2):
@@ -669,7 +704,7 @@ def partition_cases(rng, tier):
                            C.q(float(part.grid.max_pt[0])), C.q(float(part.cell_sides[0])), C.q(fl), C.q(fr)))
                 cs.add(term, {'n': n, 'a': a, 'b': a + L, 'nodes_on_bdry': [bl, br]}, (n, a, L, bl, br))
     # N-d: cell volume, extent and the boundary weight array as applied to an array of ones
-    cv = C.CaseSet('volume', ['Base.Vec', 'C02.Model', 'C02.Corr'], 'check_v', 'v_case')
+    cv = C.CaseSet('volume', ['Base.Vec', 'C02.Model', 'C02.GenTie', 'C02.Corr'], 'check_v', 'v_case')
     from odl.util.numerics import apply_on_boundary
     from odl.discr.discr_space import _scaling_func_list
     for _ in range(40 if tier == 'quick' else 300):
@@ -679,7 +714,7 @@ def partition_cases(rng, tier):
         sp = node.space
         fl = _scaling_func_list(sp.partition.boundary_cell_fractions, exponent=1.0)
         w = apply_on_boundary(np.ones(sp.shape), func=fl, only_once=False)
-        axq = node.coq[len('(SLeaf (LDiscr true '):]
+        axq = node.coq[len('(SLeaf (LDiscr '):]
         axq = axq[:axq.index('] ') + 1]
         term = ('{| v_axes := %s; v_vol := %s; v_ext := %s; v_w := %s |}'
                 % (axq, C.q(float(sp.cell_volume)), C.q(float(np.prod(sp.partition.extent))), qlist(w)))
@@ -779,26 +814,21 @@ def _walk(space):
 
 
 def known_key(space):
-    """Key of the recorded finding whose trigger is present in this space tree (None if none)."""
+    """Key of the OPEN recorded finding whose trigger is present in this space tree (None if none).
+    (Size-0 / 0-d tensors, empty and mixed-dtype product spaces are repaired: no key, a failure there
+    is a violation.)"""
     import odl
     for sp in _walk(space):
         if isinstance(sp, odl.ProductSpace):
-            if len(sp) == 0:
-                return 'pspace-empty-raises'
-            if sp.exponent == 2.0 and any(c.exponent != 2.0 for c in sp.spaces):
+            if len(sp) and sp.exponent == 2.0 and any(c.exponent != 2.0 for c in sp.spaces):
                 return 'pspace-exp2-over-exp1-components'
-        else:
-            if sp.shape == ():
-                return 'tensor-0d-norm-zero'
-            if sp.size == 0:
-                return 'tensor-size0-norm-raises'
-            if isinstance(sp, odl.DiscretizedSpace):
-                wt = sp.tspace.weighting
-                fr = np.array(sp.partition.boundary_cell_fractions)
-                if getattr(wt, 'const', None) == 1.0 and sp.exponent != INF and not np.allclose(fr, 1.0):
-                    return 'discr-unit-cell-volume-skips-bdry-fractions'
-                if np.any((np.abs(fr - 1.0) <= 1.001e-5) & (fr != 1.0) & (np.abs(fr - 1.0) > 1e-12)):
-                    return 'discr-bdry-fraction-isclose-snap'
+        elif isinstance(sp, odl.DiscretizedSpace):
+            wt = sp.tspace.weighting
+            fr = np.array(sp.partition.boundary_cell_fractions)
+            if getattr(wt, 'const', None) == 1.0 and sp.exponent != INF and not np.allclose(fr, 1.0):
+                return 'discr-unit-cell-volume-skips-bdry-fractions'
+            if np.any((np.abs(fr - 1.0) <= 1.001e-5) & (fr != 1.0) & (np.abs(fr - 1.0) > 1e-12)):
+                return 'discr-bdry-fraction-isclose-snap'
     return None
 
 
@@ -821,7 +851,9 @@ def check_space(space, xd, yd, zd, a):
     if hilbert:
         attempt('sym', lambda: (_close(x.inner(y), np.conj(y.inner(x))), None))
         attempt('lin', lambda: (_close((a * x + y).inner(z), a * x.inner(z) + y.inner(z), 1e-8), None))
-        attempt('pos', lambda: (complex(x.inner(x)).imag == 0 and complex(x.inner(x)).real >= 0 and
+        # <x,x> real up to rounding of the boundary-fraction products (|Im| <= 1e-12 |Re|), >= 0, > 0 for x != 0
+        attempt('pos', lambda: (abs(complex(x.inner(x)).imag) <= 1e-12 * abs(complex(x.inner(x)).real)
+                                and complex(x.inner(x)).real >= 0 and
                                 (complex(x.inner(x)).real > 0 or x == space.zero()), x.inner(x)))
         attempt('cs', lambda: (abs(x.inner(y)) ** 2 <= (x.inner(x) * y.inner(y)).real * (1 + 1e-9) + 1e-12, None))
         attempt('norm-inner', lambda: (_close(x.norm(), np.sqrt(complex(x.inner(x)).real)), (x.norm(), x.inner(x))))
@@ -982,6 +1014,125 @@ def layout_probes(out, rng, tier):
                                    _layout_replay(node.src, xd, yd, k, xl, yl, prop), det))
 
 
+def size_probes(out, rng, tier):
+    """Size regimes (99 / 100 / 101 / 50001 entries, 2-d 250 x 240): inner, norm, dist against NumPy on
+    closed-form integer data; replays are plain NumPy + odl."""
+    shapes = [(99,), (100,), (101,), (50001,), (250, 240)]
+    for shape, wk, p in itertools.product(shapes, ['none', 'const', 'array'], [2, 1, 3, INF]):
+        if tier == 'quick' and int(np.prod(shape)) > 1000 and (wk, p) not in (
+                ('none', 2), ('const', 2), ('array', 2), ('array', 3), ('const', INF)):
+            continue
+        psrc = "float('inf')" if p == INF else repr(float(p))
+        a, b, m = rng.choice([3, 5, 7]), rng.randint(0, 5), rng.choice([11, 13])
+        head = ("import numpy as np, odl\nshape = %r; p = %s; n = int(np.prod(shape))\n"
+                "i = np.arange(n)\nx = ((%d * i + %d) %% %d - %d).astype(float).reshape(shape)\n"
+                "y = ((5 * i + 2) %% 7 - 3).astype(float).reshape(shape)\nw = ((3 * i) %% 5 + 1.0).reshape(shape)\n"
+                "kind = %r\nkw = {} if kind == 'none' else ({'weighting': 2.5} if kind == 'const' else {'weighting': w})\n"
+                "W = np.ones(shape) if kind == 'none' else (np.full(shape, 2.5) if kind == 'const' else w)\n"
+                "sp = odl.rn(shape, exponent=p, **kw)\nX = sp.element(x); Y = sp.element(y)\n"
+                "def ref(v):\n    v = np.abs(v)\n"
+                "    return float(np.max(W * v)) if p == float('inf') else float(np.sum(W * v ** p) ** (1.0 / p))\n"
+                "cl = lambda u, v: abs(u - v) <= 1e-9 * max(1.0, abs(v))\n"
+                % (shape, psrc, a, b, m, m // 2, wk))
+        checks = {'norm': "observed = X.norm(); expected = ref(x); ok = cl(observed, expected)\n",
+                  'dist': "observed = X.dist(Y); expected = ref(x - y); ok = cl(observed, expected)\n"}
+        if p == 2:
+            checks['inner'] = "observed = X.inner(Y); expected = float(np.sum(W * x * y)); ok = cl(observed, expected)\n"
+        for prop, chk in checks.items():
+            env = {}
+            try:
+                exec(head + chk, env)
+                ok = bool(env.get('ok'))
+            except Exception as e:
+                ok = False
+                env['observed'] = repr(e)
+            pc = 'pinf' if p == INF else ('p%d' % int(p) if p in (1, 2) else 'pgen')
+            out.append(C.Probe(ok, 'tensor-%s-%s-size%d-%s' % (wk, pc, int(np.prod(shape)), prop),
+                               '%s on rn(%r), weighting %s, exponent %r vs NumPy' % (prop, shape, wk, p),
+                               head + chk, (env.get('observed'), env.get('expected'))))
+
+
+def complex_size_probes(out, rng, tier):
+    """Complex tensor / discretized / product spaces across the size regimes: <x,y> = sum w x conj(y)
+    (re and im), conjugate symmetry, <x,x> real and positive, norm -- against NumPy on the whole array."""
+    shapes = [(99,), (101,), (50001,), (300, 200)]
+    for shape, wk in itertools.product(shapes, ['none', 'const', 'array', 'discr', 'pspace']):
+        a, b = rng.choice([3, 5, 7]), rng.randint(0, 5)
+        head = ("import numpy as np, odl\nshape = %r; n = int(np.prod(shape)); i = np.arange(n)\n"
+                "x = (((%d * i + %d) %% 11 - 5) + 1j * ((7 * i + 1) %% 13 - 6)).reshape(shape)\n"
+                "y = (((5 * i + 2) %% 7 - 3) + 1j * ((3 * i) %% 5 - 2)).reshape(shape)\n"
+                "w = ((3 * i) %% 5 + 1.0).reshape(shape); kind = %r\n"
+                "if kind == 'discr':\n"
+                "    sp = odl.uniform_discr([0.0] * len(shape), [2.0] * len(shape), shape, dtype=complex, nodes_on_bdry=True)\n"
+                "    fr = np.ones(()); \n"
+                "    for m in shape:\n        v = np.ones(m); v[0] = v[-1] = 0.5; fr = np.multiply.outer(fr, v)\n"
+                "    W = sp.cell_volume * fr.reshape(shape)\n"
+                "elif kind == 'pspace':\n    sp = odl.ProductSpace(odl.cn(shape), odl.cn(3), weighting=[2.0, 3.0]); W = 2.0 * np.ones(shape)\n"
+                "else:\n"
+                "    kw = {} if kind == 'none' else ({'weighting': 2.5} if kind == 'const' else {'weighting': w})\n"
+                "    sp = odl.cn(shape, **kw)\n"
+                "    W = np.ones(shape) if kind == 'none' else (np.full(shape, 2.5) if kind == 'const' else w)\n"
+                "extra = 0.0\n"
+                "if kind == 'pspace':\n    X = sp.element([x, [1j, 2, 0]]); Y = sp.element([y, [1, 1j, 3]]); extra = 3.0 * (1j * 1 + 2 * np.conj(1j))\n"
+                "    extra_xx = 3.0 * 5.0\n"
+                "else:\n    X = sp.element(x); Y = sp.element(y); extra_xx = 0.0\n"
+                "cl = lambda u, v: abs(u - v) <= 1e-9 * max(1.0, abs(v))\n"
+                % (shape, a, b, wk))
+        checks = {
+            'inner': "observed = complex(X.inner(Y)); expected = complex(np.sum(W * x * np.conj(y)) + extra); ok = cl(observed, expected)\n",
+            'conj-sym': "observed = complex(Y.inner(X)); expected = complex(np.conj(X.inner(Y))); ok = cl(observed, expected)\n",
+            'pos': "observed = complex(X.inner(X)); expected = float(np.sum(W * np.abs(x) ** 2) + extra_xx)\n"
+                   "ok = abs(observed.imag) <= 1e-9 * expected and cl(observed.real, expected)\n",
+            'norm': "observed = X.norm(); expected = float(np.sqrt(np.sum(W * np.abs(x) ** 2) + extra_xx)); ok = cl(observed, expected)\n"}
+        for prop, chk in checks.items():
+            env = {}
+            try:
+                exec(head + chk, env)
+                ok = bool(env.get('ok'))
+            except Exception as e:
+                ok = False
+                env['observed'] = repr(e)
+            out.append(C.Probe(ok, 'complex-%s-size%d-%s' % (wk, int(np.prod(shape)), prop),
+                               '%s on a complex %s space with %r entries vs NumPy' % (prop, wk, shape), head + chk,
+                               (env.get('observed'), env.get('expected'))))
+
+
+def dtype_discr_probes(out, rng, tier):
+    """Discretized spaces of every numeric dtype: the default weighting is the cell volume, so
+    ||one||_p ** p = domain volume (p = 1, 2, 3), and inner/norm carry the cell volume."""
+    for dt, p, nd in itertools.product(['int64', 'int32', 'float32', 'float64', 'complex128', 'complex64'],
+                                       [1, 2, 3], [1, 2]):
+        shape = tuple(rng.choice([2, 4, 5, 10]) for _ in range(nd))
+        maxs = [float(rng.choice([1, 2, 3])) for _ in range(nd)]
+        head = ("import numpy as np, odl\nsp = odl.uniform_discr(%r, %r, %r, dtype=%r, exponent=%r)\n"
+                "vol = float(np.prod(sp.partition.extent)); cv = vol / sp.size\n"
+                "tol = 1e-4 if sp.dtype in (np.dtype('float32'), np.dtype('complex64')) else 1e-9\n"
+                % ([0.0] * nd, maxs, shape, dt, float(p)))
+        checks = {'one-norm': "observed = sp.one().norm() ** %r; expected = vol; ok = abs(observed - expected) <= tol * expected\n" % float(p),
+                  'weighting': "observed = getattr(sp.weighting, 'const', None); expected = cv\n"
+                               "ok = observed is not None and abs(observed - expected) <= 1e-12 * expected\n"}
+        if p == 2:
+            checks['inner'] = ("x = sp.element(np.arange(sp.size).reshape(sp.shape) % 3)\n"
+                               "observed = complex(x.inner(sp.one())).real; expected = cv * float(np.sum(np.arange(sp.size) % 3))\n"
+                               "ok = abs(observed - expected) <= tol * max(1.0, expected)\n")
+        for prop, chk in checks.items():
+            env = {}
+            try:
+                exec(head + chk, env)
+                ok = bool(env.get('ok'))
+            except Exception as e:
+                ok = False
+                env['observed'] = repr(e)
+            kk = None
+            try:
+                kk = known_key(env['sp']) if not ok else None
+            except Exception:
+                pass
+            out.append(C.Probe(ok, kk or 'discr-default-%s-%s' % (dt, prop),
+                               '%s of uniform_discr(dtype=%s, exponent=%r): default weighting is the cell volume'
+                               % (prop, dt, p), head + chk, (env.get('observed'), env.get('expected'))))
+
+
 def search(rng, broken):
     """A correspondence case failed but no probe produced an input: re-evaluate the independent oracle on
     that very case (same space, data, memory layouts and exponent), then on every other layout."""
@@ -1106,6 +1257,22 @@ def probes(rng, tier):
         probe_space(out, node.src, node.space, rng, cplx=True)
     # memory layouts (C / F / wrapped Fortran / transposed / strided) x array weights x exponents
     layout_probes(out, rng, tier)
+    size_probes(out, rng, tier)
+    complex_size_probes(out, rng, tier)
+    dtype_discr_probes(out, rng, tier)
+    # the switches derived from the source text agree with the behaviour measured on the findings' inputs
+    try:
+        gen = translate()['Gen/Weighting.v']
+    except C.TranslateError:
+        gen = None          # reported by the driver as a broken translator obligation; probes go on
+    q = quirks()
+    g_unw = gen is not None and 'UNotWeighted' in gen.split('gen_unif_weighted')[1].split('\n')[0]
+    g_ps2 = gen is not None and 'gen_ps2_via_inner : bool := true' in gen
+    if gen is not None:
+        out.append(C.Probe(g_unw == q['q_unweighted_skips'] and g_ps2 == q['q_ps2_via_inner'],
+                           'generated-switches-vs-behaviour',
+                           'variant switches read off the source (%r, %r) equal the measured ones (%r, %r)'
+                           % (g_unw, g_ps2, q['q_unweighted_skips'], q['q_ps2_via_inner']), None))
     # (5) the recorded findings, each reproduced on its own input
     def known(key, what, snippet):
         env = {}
@@ -1153,6 +1320,17 @@ def probes(rng, tier):
           "import odl, numpy as np\nsp = odl.tensor_space(3, dtype='int64', weighting=np.array([1, 2, 3]), exponent=1)\n"
           "x = sp.element([2, 3, -1])\ntry:\n    observed = x.norm()\n    ok = observed == 11.0\n"
           "except Exception as e:\n    observed = repr(e); ok = False\n")
+    known('pspace-array-nested-mixed-dtype-inner-raises',
+          'inner/norm on an ARRAY-weighted exponent-2 product whose first component is a mixed-dtype product',
+          "import odl\nps = odl.ProductSpace(odl.ProductSpace(odl.rn(2, dtype='float32'), odl.rn(3)), "
+          "odl.ProductSpace(odl.rn(2), 2), weighting=[1, 2])\nx = ps.one()\ntry:\n    observed = (x.inner(x), x.norm())\n"
+          "    ok = abs(observed[0] - 13.0) < 1e-6 and abs(observed[1] ** 2 - 13.0) < 1e-5\n"
+          "except AttributeError as e:\n    observed = repr(e); ok = False\n")
+    known('discr-int-dtype-bdry-scaling-truncates',
+          'integer-dtype discretized space with nodes on the boundary: inner(x, one) = weighted sum with fractions',
+          "import odl\nd = odl.uniform_discr(0, 2, 3, nodes_on_bdry=True, dtype='int64', weighting=2.0)\n"
+          "x = d.element([3, 1, 3])\nobserved = (x.inner(d.one()), x.norm() ** 2)\nexpected = (8.0, 20.0)\n"
+          "ok = abs(observed[0] - 8.0) < 1e-9 and abs(observed[1] - 20.0) < 1e-9\n")
     known('discr-bdry-fraction-isclose-snap',
           'boundary fraction 1.000002 (inside the np.isclose band): ||one||^2 == volume',
           "import odl, numpy as np\npart = odl.RectPartition(odl.IntervalProd(0, 4 + 0.5 + 0.5 * 1.000004), "
@@ -1199,7 +1377,8 @@ LEVEL_TEXT = ('Proof (Coq, carrier R, all lengths / shapes / tree depths): for c
               'exponents {1,2,inf,3,4} x dtypes x C/F data x sizes 0..60000 x boundary flags x nested trees.')
 LEVEL_NOTE = ('Validated, not proved: NumPy/BLAS kernels and float rounding (compared to rtol 1e-10, float32 1e-5); '
               'apply_on_boundary modelled as an outer product of per-axis vectors; non-integer exponents (1.5, 2.5) and '
-              'norm/dist of complex product spaces only probed (their inner product is modelled and proved); custom inner/norm/dist are pass-through (delegation probed); the '
+              'norm/dist of complex product spaces are in the correspondence (entry-wise modulus, then the real paths) but '
+              'have no theorem of their own (their inner product is modelled and proved); custom inner/norm/dist are pass-through (delegation probed); the '
               'Q-instance p-th root (exact on perfect powers, else 2^-64 floor approximations) stands for the real root. '
               'Eight recorded findings are modelled through measured variant switches (quirks) or excluded inputs and '
               'reproduced by probes.  Axioms: classical reals + functional extensionality as printed.')
